@@ -152,7 +152,7 @@ func runC11(c *Ctx) {
 			}
 		}
 	}
-	r.Floor("poll-shape", npoll, 5, "ctx.Err() polls")
+	r.Floor("poll-shape", npoll, 3, "ctx.Err() polls")
 	c11Loops(c, p, ep)
 	c11Recursion(c, p, pollFns)
 	// CtxErr: functions from which a poll function is reachable (their error may be a ctx error)
@@ -164,7 +164,7 @@ func runC11(c *Ctx) {
 		}
 	}
 	n := c13Chain(c, p, ep, fns, "ctx-chain", ctxErr)
-	r.Floor("ctx-chain", n, 15, "rewrap sites on context-error paths")
+	r.Floor("ctx-chain", n, 10, "rewrap sites on context-error paths")
 	r.Extra("functions_that_may_return_a_context_error", len(ctxErr))
 	c11Residue(c, p)
 	c11PollInLoops(c, p)
